@@ -129,6 +129,25 @@ func c06Oracle(ec *epCase) *Failure {
 			}
 		}
 	}
+	// Exists never reports true when a complete evaluation yields no item, also where that evaluation
+	// ends in an error (Query then shows no items at all, so the count comes from the reference
+	// model's complete evaluation: the items it delivers before the first error)
+	if !unordered && v.q.Class != "ok" {
+		for _, o := range []struct {
+			e      Out
+			silent bool
+		}{{v.e, false}, {s.e, true}} {
+			if !(o.e.Class == "ok" && o.e.Bool) {
+				continue
+			}
+			rc := newRefCtx(ec.p.Strict, ec.doc, map[string]any(ec.cfg.vars), ec.c.TZ, zoneOf(ec.c.Zone))
+			ro := refQuery(ec.p, rc)
+			if ro.declined != "" || ro.multiObj || ro.err == nil || len(ro.items) > 0 {
+				continue
+			}
+			return c06Known(ec, &Failure{Sig: "C06/exists-true-but-evaluation-fails-without-items/" + mode, Expected: "Exists not true: the complete evaluation fails (" + ro.err.msg + ") before any item", Observed: o.e.String() + fmt.Sprint(" (silent=", o.silent, ")")})
+		}
+	}
 	// strict mode never hides an error that Query reports
 	if ec.p.Strict && v.q.Class != "ok" {
 		if v.e.Class != v.q.Class {
